@@ -577,6 +577,75 @@ example : reprTable.length = 12 ∧
       = some (.ok [.large [1, 2, 3]]) := by
   refine ⟨by decide, by decide⟩
 
+-- ------------------------------------------------------------------ div_const::repr: the size-class arms against a ConstDivisorRepr
+
+/-- every regenerated `impl Div / Rem / DivRem<&ConstDivisorRepr>` for `TypedRepr` / `TypedReprRef` has exactly the arms the
+    model's `divConst` / `remConst` / `divRemConst` mirror: patterns in source order and, token for token, the body of each
+    arm (callee, `from_word` / `from_dword` / `from_buffer` / `zero`, the `>> shift`, the `buffer.len() < div_len` guard) -/
+theorem const_repr_table_arms : constReprTable.all CImpl.armsOk = true := by decide
+
+/-- the four impls of the source are listed: `Div`, `DivRem` for `TypedRepr`; `Rem` for `TypedRepr` and `TypedReprRef` -/
+theorem const_repr_table_complete :
+    ([(Disp.div, false), (.div_rem, false), (.rem, false), (.rem, true)].all fun p =>
+      constReprTable.any (fun i => i.tr == p.1 && i.lhsRef == p.2)) = true := by decide
+
+/-- `rem_large_large` (the `>=` reading of the source) is the Large/Large arm of the model's `remConst` (written with `<`) -/
+theorem remLargeLarge_eq (W : Nat) (ws nd : List Nat) (shift dtop : Nat) :
+    remLargeLarge W ws nd shift dtop = remConst W (.large ws) (.large nd shift dtop) := by
+  unfold remLargeLarge remConst
+  by_cases h : ws.length < nd.length
+  · have h' : ¬ ws.length ≥ nd.length := by omega
+    simp only [h, h', if_true, if_false]
+  · have h' : ws.length ≥ nd.length := by omega
+    simp only [h, h', if_true, if_false]
+
+/-- an impl with the expected arms, run arm by arm, is the model's function -/
+theorem constExpectedArms_eval (W : Nat) (d : Disp) (lr : Bool) (a : TRepr) (c : ConstDiv) :
+    CImpl.eval W ⟨d, lr, constExpectedArms d⟩ a c = some (constSpec W d a c) := by
+  cases d <;> cases a <;> cases c <;>
+    simp only [CImpl.eval, constExpectedArms, List.find?, TRepr.isLarge, ConstDiv.cls, CAct.eval, constSpec,
+      remLargeLarge_eq, beq_self_eq_true, Bool.and_self, Bool.and_true, Bool.and_false,
+      (by decide : (false == true) = false),
+      (by decide : (CCls.single == CCls.double) = false), (by decide : (CCls.single == CCls.large) = false),
+      (by decide : (CCls.double == CCls.single) = false), (by decide : (CCls.double == CCls.large) = false),
+      (by decide : (CCls.large == CCls.single) = false), (by decide : (CCls.large == CCls.double) = false)] <;>
+    first
+      | rfl
+      | (simp only [divConst, divRemConst, oneList, pairList]; first | rfl | (split <;> rfl))
+
+/-- **every regenerated impl of `div_const::repr` is the model's function**: for all dividends and prepared divisors,
+    running the arms read from the source gives `divRemConst` / `divConst` / `remConst` — the functions the theorems of §5
+    (`const_divisor_eq_plain`, `const_divisor_ibig_exact`) are about and `Entry.eval` runs; a changed arm (callee,
+    constructor, guard, missing shift-back) no longer checks -/
+theorem const_repr_every_impl_eq_model (W : Nat) (i : CImpl) (hi : i ∈ constReprTable) (a : TRepr) (c : ConstDiv) :
+    i.eval W a c = some (constSpec W i.tr a c) := by
+  have h := List.all_eq_true.mp const_repr_table_arms i hi
+  obtain ⟨d, lr, arms⟩ := i
+  simp only [CImpl.armsOk, beq_iff_eq] at h
+  subst h
+  exact constExpectedArms_eval W d lr a c
+
+/-- `fn rem_large_large`: the body has the recognised shape and the model reduces exactly where the regenerated `if`
+    condition (`lhs.len() >= modulus.len()`) says -/
+theorem rem_large_large_guard (W : Nat) (ws nd : List Nat) (shift dtop : Nat) :
+    remLargeLargeShape = .reduceIfGuard ∧
+    remLargeLarge W ws nd shift dtop =
+      if guard_rem_large_large_reduce ws.length nd.length = true then (do
+        let (buf, _) ← divRemUnshiftedInPlace W ws nd shift dtop
+        let r ← shrRemainder W (buf.take nd.length) shift
+        pure (fromBuffer W r))
+      else .ok (fromBuffer W ws) := by
+  refine ⟨by decide, ?_⟩
+  unfold remLargeLarge guard_rem_large_large_reduce
+  by_cases h : ws.length ≥ nd.length <;> simp [h]
+
+example : constReprTable.length = 4 ∧
+    CImpl.eval 64 ⟨.rem, true, constExpectedArms .rem⟩ (.large [1, 2, 3]) (.large [0, 0, 0, 9223372036854775808] 0 0)
+      = some (.ok [.large [1, 2, 3]]) ∧
+    CImpl.eval 64 ⟨.div_rem, false, constExpectedArms .div_rem⟩ (.small 7) (.large [0, 0, 0, 9223372036854775808] 0 0)
+      = some (.ok [.small 0, .small 7]) := by
+  refine ⟨by decide, by decide, by decide⟩
+
 -- ================================================================== §9b length guards of the division kernels (Tie A)
 
 /-- `div::div_rem_in_place`: the model's algorithm choice IS the `if` condition regenerated from integer/src/div/mod.rs -/
